@@ -1,18 +1,140 @@
 package main
 
-import "fmt"
+import (
+	"fmt"
+	"io/ioutil"
+	"os"
+	"os/exec"
+	"path/filepath"
+	"runtime/debug"
+	"strings"
+	"sync"
 
+	"github.com/openacid/slim/encode"
+	"github.com/openacid/slim/trie"
+)
+
+// selftest proves the plumbing (not reach): each monitor kind must fire on a
+// planted fault in the harness's own stubs, and the writer models must still
+// reproduce the archived fixtures.
 func selftest() int {
 	rc := 0
+	fail := func(f string, a ...interface{}) {
+		fmt.Printf("selftest FAIL: "+f+"\n", a...)
+		rc = 1
+	}
 	n, err := validateBuildOld()
 	fmt.Printf("selftest: three-section writer model reproduces %d archived fixtures, err=%v\n", n, err)
 	if err != nil || n < 70 {
-		rc = 1
+		fail("legacy writer model")
 	}
 	m, total, first := validateDowngrade()
 	fmt.Printf("selftest: 0.5.10 downgrade reproduces %d of %d archived fixtures %s\n", m, total, first)
 	if m != total {
-		rc = 1
+		fail("0.5.10 downgrade")
+	}
+
+	// planted wrong answer: the model is told about a key the trie never got
+	{
+		keys := []string{"a", "ab", "b"}
+		vals := &ValSpec{Kind: "i32", Ints: []int64{1, 2, 3}}
+		st, _ := trie.NewSlimTrie(encode.I32{}, keys, vals.Slice(), trie.Opt{Complete: trie.Bool(true)})
+		lieKeys := []string{"a", "ab", "abc", "b"}
+		lieVals := &ValSpec{Kind: "i32", Ints: []int64{1, 2, 9, 3}}
+		ctx := newCtx("SELF", "quick", 1)
+		lc := &LCase{Family: "selftest", Keys: lieKeys, Vals: lieVals}
+		env := &lookupEnv{ctx: ctx, prop: "SELF", lc: lc, opt: OptSet{D: true, C: true}, model: NewModel(lieKeys, lieVals, true), inst: "fresh", st: st}
+		env.oracleC01()
+		if ctx.nviol == 0 {
+			fail("reference-map oracle did not fire on a planted missing key")
+		}
+		ctx2 := newCtx("SELF", "quick", 1)
+		se := &scanEnv{prop: "SELF", ctx: ctx2, lc: lc, opt: OptSet{D: true, C: true}, model: NewModel(lieKeys, lieVals, true), inst: "fresh", st: st, window: 100}
+		se.scanOnce("", true, false, 0, "", false, false)
+		if ctx2.nviol == 0 {
+			fail("scan sequence oracle did not fire on a planted missing key")
+		}
+		// and silence on the truth
+		ctx3 := newCtx("SELF", "quick", 1)
+		env3 := &lookupEnv{ctx: ctx3, prop: "SELF", lc: &LCase{Keys: keys, Vals: vals}, opt: OptSet{D: true, C: true}, model: NewModel(keys, vals, true), inst: "fresh", st: st}
+		env3.oracleC01()
+		env3.oracleC03([]string{"", "a", "aa", "ab", "abc", "b", "c"})
+		if ctx3.nviol != 0 {
+			fail("oracles fired on a correct trie")
+		}
+		fmt.Printf("selftest: planted wrong answers: lookup oracle hits=%d, scan oracle hits=%d; silent on the truth\n", ctx.nviol, ctx2.nviol)
+	}
+
+	// planted aliasing / stray write: guard pages
+	{
+		debug.SetPanicOnFault(true)
+		g := NewGuard([]byte("payload"))
+		g.ReadOnly()
+		pv, _ := try(func() { g.Buf[0] = 'X' })
+		if pv == nil {
+			fail("store into a read-only guarded buffer did not fault")
+		}
+		pv, _ = try(func() { sinkByte = g.m[len(g.m)-g.ps] })
+		if pv == nil {
+			fail("read beyond the guarded buffer did not fault")
+		}
+		g.NoAccess()
+		pv, _ = try(func() { sinkByte = g.Buf[1] })
+		if pv == nil {
+			fail("load through a retained alias did not fault")
+		}
+		g.Free()
+		// a stub loader that aliases its input: scribble detection
+		buf := []byte{1, 2, 3, 4}
+		alias := buf[:2]
+		before := fmt.Sprint(alias)
+		scribble(buf, 1, NewRNG(1))
+		if fmt.Sprint(alias) == before {
+			fail("scribble did not change an aliasing stub")
+		}
+		fmt.Println("selftest: guard pages fault recoverably on store, over-read and retained-alias load")
+	}
+
+	// planted race: the detector must be live in the race build
+	exe, _ := os.Executable()
+	raceExe := strings.TrimSuffix(exe, ".race") + ".race"
+	if _, err := os.Stat(raceExe); err == nil {
+		dir, _ := ioutil.TempDir(filepath.Join(verifRoot, ".work"), "selfrace")
+		defer os.RemoveAll(dir)
+		cmd := exec.Command(raceExe, "selftest-race")
+		cmd.Env = append(os.Environ(), "GORACE=halt_on_error=0 log_path="+filepath.Join(dir, "race"))
+		out, _ := cmd.CombinedOutput()
+		reports := collectRaceReports(dir)
+		fmt.Printf("selftest: planted race -> %d report(s) from the race detector (%s)\n", len(reports), strings.TrimSpace(string(out)))
+		if len(reports) == 0 {
+			fail("race detector did not report the planted race")
+		}
+	} else {
+		fail("race build of the harness not found at %s", raceExe)
+	}
+	if rc == 0 {
+		fmt.Println("selftest: ok")
 	}
 	return rc
+}
+
+var sinkByte byte
+
+// selftestRace shares a counter between two goroutines without
+// synchronisation.
+func selftestRace() int {
+	var wg sync.WaitGroup
+	x := 0
+	for g := 0; g < 2; g++ {
+		wg.Add(1)
+		go func() {
+			defer wg.Done()
+			for i := 0; i < 1000; i++ {
+				x++
+			}
+		}()
+	}
+	wg.Wait()
+	fmt.Print("planted counter=", x, " mode=", buildMode)
+	return 0
 }
